@@ -4,9 +4,8 @@ From DV Require Export DataModel.
 Local Open Scope N_scope.
 
 (* ---------------------------------------------------------------- oracles as tables *)
-(* rank tables observed / reconstructed by the harness: key -> position in the iteration *)
-Record otab := mkOT { t_ns : list (N * N); t_ent : list (N * N * N);
-                      t_fld : list (N * N * N * N); t_new : list (N * N * N * N) }.
+(* rank tables observed by the harness: key -> position in the iteration *)
+Record otab := mkOT { t_ns : list (N * N); t_ent : list (N * N * N); t_fld : list (N * N * N * N) }.
 Definition look1 (l : list (N * N)) (a : N) : N :=
   match find (fun p => N.eqb (fst p) a) l with Some p => snd p | None => 0 end.
 Definition look2 (l : list (N * N * N)) (a b : N) : N :=
@@ -14,7 +13,7 @@ Definition look2 (l : list (N * N * N)) (a b : N) : N :=
 Definition look3 (l : list (N * N * N * N)) (a b c : N) : N :=
   match find (fun p => let '(x, y, z, _) := p in N.eqb x a && N.eqb y b && N.eqb z c) l with Some p => snd p | None => 0 end.
 Definition oracle_of (t : otab) : oracle :=
-  mkO (look1 (t_ns t)) (look2 (t_ent t)) (look3 (t_fld t)) (look3 (t_new t)).
+  mkO (look1 (t_ns t)) (look2 (t_ent t)) (look3 (t_fld t)).
 
 (* ---------------------------------------------------------------- cases *)
 Inductive c15case :=
@@ -102,10 +101,10 @@ Definition enc_step (r : option err * dmodel) : list Z := verdict_code (fst r) :
 Definition run_bare (steps : list step) (peers : list (list otab)) : list (list (option err * dmodel)) :=
   map (fun os => run_steps empty_model steps (map oracle_of os)) peers.
 
-(* instance histories: state = (stored model, model in memory, is an instance running).
-   update_data_model applies update_system(SYSTEM_DATA_MODEL) to the reloaded model first: when
-   the user's version is then refused, `model` holds the system model's text *)
-Definition sys_text_tag : N := 1000000.
+(* instance histories: state = (stored model, is an instance running).
+   GraphDatabase::update_data_model applies the system model and the new version to a copy of the
+   stored model; on success it is stored and becomes the model in memory, on refusal nothing changes
+   (the model in memory is the stored one: every successful call makes them equal) *)
 Fixpoint run_inst_obs (stored : dmodel) (running : bool) (steps : list (bool * step)) (os : list otab)
   : list (bool * option (dmodel * dmodel)) :=
   match steps with
@@ -113,15 +112,13 @@ Fixpoint run_inst_obs (stored : dmodel) (running : bool) (steps : list (bool * s
   | (is_start, s) :: r =>
       if negb is_start && negb running then (false, None) :: run_inst_obs stored running r (tl os)
       else
-      let o := oracle_of (hd (mkOT [] [] [] []) os) in
+      let o := oracle_of (hd (mkOT [] [] []) os) in
       let '(M', e) := upd o (s_sys s) stored (s_ver s) in
-      let stored' := match e with None => M' | Some _ => stored end in
-      (* GraphDatabaseService::update_data_model drops the inner result: at run time the caller
-         always gets Ok; start() reports the refusal and no instance runs *)
-      let api_ok := if is_start then is_none e else true in
+      (* M' = stored when refused; a refused start leaves no instance, a refused run-time update
+         leaves the instance as it was; the caller is told *)
+      let api_ok := is_none e in
       let running' := if is_start then is_none e else true in
-      let mem := match e with None => M' | Some _ => mkM sys_text_tag (m_nss M') end in
-      (api_ok, if running' then Some (mem, stored') else None) :: run_inst_obs stored' running' r (tl os)
+      (api_ok, if running' then Some (M', M') else None) :: run_inst_obs M' running' r (tl os)
   end.
 Definition enc_inst (x : bool * option (dmodel * dmodel)) : list Z :=
   zb (fst x) :: match snd x with
@@ -200,14 +197,13 @@ Fixpoint peer_ok (last : option N * option N) (D : dmodel) (steps : list step) (
   | _, _ => false
   end.
 
-(* peers that accepted the same versions agree on the whole model (identifiers included) *)
+(* peers that applied the same versions accepted the same ones and hold the same models
+   (identifiers included) after every step *)
 Fixpoint agree (a b : list (Z * dmodel)) : bool :=
   match a, b with
-  | (va, Da) :: ra, (vb, Db) :: rb =>
-      if Bool.eqb (Z.eqb va 0) (Z.eqb vb 0)
-      then (if Z.eqb va 0 then model_eqb Da Db else true) && agree ra rb
-      else true          (* from here on they did not accept the same versions *)
-  | _, _ => true
+  | (va, Da) :: ra, (vb, Db) :: rb => Bool.eqb (Z.eqb va 0) (Z.eqb vb 0) && model_eqb Da Db && agree ra rb
+  | [], [] => true
+  | _, _ => false
   end.
 Fixpoint all_agree (l : list (list (Z * dmodel))) : bool :=
   match l with
@@ -301,6 +297,10 @@ Fixpoint refused_unchanged (M : dmodel) (l : list (option err * dmodel)) : Prop 
   | (e, M') :: r => (e <> None -> M' = M) /\ refused_unchanged M' r
   end.
 
+(* what peers must agree on: was the version accepted, and the model afterwards (which error a
+   refused version is refused with depends on the iteration order) *)
+Definition outcome (r : option err * dmodel) : bool * dmodel := (is_none (fst r), snd r).
+
 (* where a reader finds a value: short name of the entity, of the field (the JSON key), its type *)
 Definition address (M : list nspace) (ns e f : N) : option (eshort * N * ftype) :=
   match find_ns ns M with
@@ -317,61 +317,11 @@ Definition addresses_kept (M M' : dmodel) : Prop :=
   forall ns e f a, address (m_nss M) ns e f = Some a -> address (m_nss M') ns e f = Some a.
 
 (* ---------------------------------------------------------------- known-finding classes *)
-(* class 1 (K1): a version that gives an existing entity two or more new fields at once: their
-   storage identifiers follow the hash-map iteration order
-   class 2 (K2): a version refused from inside the in-place loops of update_with / Entity::update
-   (ordering, missing item, type, default errors): what was visited before stays modified
-   (on an instance: any version refused at run time — update_data_model has by then replaced the
-   model in memory by the reloaded one with the system model applied)
-   class 3 (K3): a version refused at run time through GraphDatabaseService::update_data_model:
-   the caller gets Ok *)
-Definition multi_new (M P : list nspace) : bool :=
-  existsb (fun n => match find_ns (n_name n) P with
-                    | None => false
-                    | Some p => existsb (fun e => match find_ent (e_name e) (n_ents p) with
-                                                  | None => false
-                                                  | Some q => 2 <=? len (new_fields e q)
-                                                  end) (n_ents n)
-                    end) M.
-Definition k1_step (M : dmodel) (s : step) : bool :=
-  match parse (if s_sys s then 0 else 1) (s_ver s) with
-  | Ok P => multi_new (m_nss M) P
-  | Err _ => false
-  end.
-Definition in_loop_err (e : option err) : bool :=
-  match e with
-  | Some (ENsOrdering | EEntOrdering | EMissingEntity | EMissingNamespace | EFieldOrdering
-         | ECannotUpdateType | EMissingDefault | EMissingField) => true
-  | _ => false
-  end.
-
-Fixpoint known_steps (M : dmodel) (steps : list step) (os : list oracle) : bool * bool :=
-  match steps with
-  | [] => (false, false)
-  | s :: r =>
-      let '(M', e) := upd (hd zero_oracle os) (s_sys s) M (s_ver s) in
-      let '(k1, k2) := known_steps M' r (tl os) in
-      (k1_step M s || k1, in_loop_err e || k2)
-  end.
-Fixpoint known_inst (stored : dmodel) (steps : list (bool * step)) (os : list otab) : bool * bool * bool :=
-  match steps with
-  | [] => (false, false, false)
-  | (is_start, s) :: r =>
-      let '(M', e) := upd (oracle_of (hd (mkOT [] [] [] []) os)) (s_sys s) stored (s_ver s) in
-      let '(k1, k2, k3) := known_inst (match e with None => M' | Some _ => stored end) r (tl os) in
-      let refused_at_run_time := negb is_start && negb (is_none e) in
-      (k1_step stored s || k1, refused_at_run_time || k2, refused_at_run_time || k3)
-  end.
-
-Definition known_C15 (c : c15case) : list Z :=
-  match c with
-  | CBare steps peers =>
-      let ks := map (fun os => known_steps empty_model steps (map oracle_of os)) peers in
-      (if existsb fst ks then [1%Z] else []) ++ (if existsb snd ks then [2%Z] else [])
-  | CInst steps os =>
-      let '(k1, k2, k3) := known_inst empty_model steps os in
-      (if k1 then [1%Z] else []) ++ (if k2 then [2%Z] else []) ++ (if k3 then [3%Z] else [])
-  end.
+(* none open: the three defects this check found (K1 identifiers of fields added together followed
+   the hash-map order, K2 a refused version left the model half-updated, K3 a refusal at run time
+   was answered with Ok) are repaired in /repo (known_findings.d/C15.json, status fixed); their
+   witnesses stay among the directed cases and must pass the oracle *)
+Definition known_C15 (c : c15case) : list Z := [].
 
 Definition eval_C15 (c : c15case) (obs : list Z) : list Z :=
   [zb (zlist_eqb (run_C15 c) obs); zb (spec_C15 c obs)] ++ known_C15 c.
